@@ -41,7 +41,7 @@ ASSUMPTIONS = ['wavelengths > 0 and strictly increasing, values >= 0, temperatur
                'comparison tolerance 1e-12 relative; Planck arguments hc/(lambda k T) in [0.05, 50]']
 RULE = ('all 49+ name pairs and all 64 triples of wavelength units; all 27 flux triples at random (flux, wave); Spectrum.to '
         'chains of length <= 6 over random unit sequences (density and unitless, random upper/lower case, closed chains '
-        'favoured) observed after every step; Spectrum.sample(points, waveunit) for all 16 wave-unit pairs x {None, photlam, flam, wlam} (own grid and interior/outside points; spectrum untouched); band integrals integrate(start, end) on dense grids (0.05-20 nm spacing) in every wave unit before/after to() (fresh and chained objects, trapz and simps); arrays of 2**20+3 .. 3*2**20+7 samples judged at sampled indices; numpy array subclasses (MaskedArray, metadata subclass), strided views, 0-d / one-element / numpy-scalar wavelengths; Planck arguments hc/(lambda k T) from 1e-6 (Rayleigh-Jeans) to 100 (Wien tail); values scaled over 1e-30..1e30; TEST cases Wien peak (cubic fit of log radiance around the maximum) and Stefan-Boltzmann total (40001-point log grid) in every wave unit against CODATA 2018 references to 1e-5; planck_radiance/exitance, Blackbody (+ to-chain, + sample in its own and in other wave units), Blackbody.vegamag stars in every (wave, value) unit pair, converted with to-chains and sampled in every wave unit (compared with the SI reference vegaflux*planck_exitance ratio, a star built directly in the target units and a fresh star), integer/list/tuple inputs and scalar/list sample points, vegaflux in '
+        'favoured) observed after every step; Spectrum.sample(points, waveunit) for all 16 wave-unit pairs x {None, photlam, flam, wlam} (own grid and interior/outside points; spectrum untouched); band integrals integrate(start, end) on dense grids (0.05-20 nm spacing) in every wave unit before/after to() (fresh and chained objects, trapz and simps); arrays of 2**20+3 .. 3*2**20+7 samples judged at sampled indices; numpy array subclasses (MaskedArray, metadata subclass), strided views, 0-d / one-element / numpy-scalar wavelengths; Planck arguments hc/(lambda k T) from 1e-6 (Rayleigh-Jeans) to 100 (Wien tail); values scaled over 1e-30..1e30; Blackbody / vegamag / Spectrum objects whose table was edited in place (value assignment, pad, append) and then converted, against a plain Spectrum with the same table; planck_* and Blackbody under a caller-set np.errstate (raise / ignore / call, with and without an overflowing sample; error state must be left unchanged); TEST cases Wien peak (cubic fit of log radiance around the maximum) and Stefan-Boltzmann total (40001-point log grid) in every wave unit against CODATA 2018 references to 1e-5; planck_radiance/exitance, Blackbody (+ to-chain, + sample in its own and in other wave units), Blackbody.vegamag stars in every (wave, value) unit pair, converted with to-chains and sampled in every wave unit (compared with the SI reference vegaflux*planck_exitance ratio, a star built directly in the target units and a fresh star), integer/list/tuple inputs and scalar/list sample points, vegaflux in '
         'all unit pairs; refused operations (unknown unit, None value unit -> flux); '
         'histories of 2-4 planck_*/Unit.to/flux/vegaflux calls in one process with one argument varied at a time; non-trivial = at least one conversion between two different units')
 
@@ -330,6 +330,45 @@ def generate(rng, tier):
         for wn in (WNAMES if not quick else WSHORT):
             for vn in FNAMES:
                 yield {'op': 'vega', 'band': band if rng.random() < 0.7 else band.lower(), 'wn': rcase(rng, wn), 'vn': rcase(rng, vn)}
+    # -- objects whose table was edited in place (value assignment, pad, append) and THEN converted: to() must merely
+    #    rescale the table it finds, for a Blackbody / vegamag star exactly as for a plain Spectrum
+    for k in range(36 if quick else 400):
+        wn, vn = rng.choice(WSHORT), rng.choice(FNAMES)
+        temp = float(rng.choice([3000, 5772, 9602]))
+        n = rng.choice([2, 3, 4])
+        waves = rnd_waves(rng, n, wn)
+        kind = ['value', 'pad', 'append', 'scale'][k % 4]
+        edit = {'kind': kind}
+        if kind == 'value':
+            edit['factors'] = [0.0 if rng.random() < 0.3 else round(rng.uniform(0.1, 3.0), 3) for _ in range(n)]
+        elif kind == 'pad':
+            step = min(b - a for a, b in zip(waves, waves[1:]))
+            edit['ends'] = [waves[0] - step * rng.randint(1, 3), waves[-1] + step * rng.randint(1, 3)]
+            if edit['ends'][0] <= 0:
+                edit['ends'][0] = waves[0] * 0.5
+        elif kind == 'append':
+            # Spectrum.append compares the two wavelength arrays element-wise: same length as the object (C15's subject)
+            edit['wave'] = [waves[-1] * (1.5 + 0.5 * i) for i in range(n)]
+            edit['value'] = [0.0] + [round(rng.uniform(0.0, 5.0), 3) for _ in range(n - 1)]
+        else:
+            edit['factor'] = round(rng.uniform(0.1, 10.0), 3)
+        c = {'op': 'edited', 'cls': ['blackbody', 'vegamag', 'spectrum'][k % 3], 'waves': waves, 'temp': temp, 'wn': wn, 'vn': vn,
+             'edit': edit, 'args': [rcase(rng, a) for a in rnd_chain(rng, wn, vn, 3, close_p=0.4)]}
+        if c['cls'] == 'vegamag':
+            c['band'], c['mag'] = rng.choice(BANDS[:8]), float(rng.randint(0, 10))
+        yield c
+    # -- the caller's numpy error state: results and refusals of planck_* / Blackbody must not depend on it, and the
+    #    library must leave it as it found it
+    for k in range(24 if quick else 200):
+        temp = float(rng.choice([200, 300, 1000, 5772]))
+        wn, vn = rng.choice(WNAMES), rng.choice(FNAMES)
+        hc_k = float(consts['H'] * consts['C'] / consts['K'])
+        xs = sorted({round(math.exp(rng.uniform(math.log(0.5), math.log(60))), 3) for _ in range(rng.randint(2, 5))}, reverse=True)
+        if k % 2 == 0:
+            xs = [round(rng.uniform(720, 900), 1)] + xs              # one sample whose exp() overflows
+        waves = [float(Fraction(hc_k / (x * temp)) / METRES[CANON[wn]]) for x in xs]
+        yield {'op': 'errstate', 'target': ['radiance', 'exitance', 'blackbody'][k % 3], 'waves': waves, 'temp': temp,
+               'wn': wn, 'vn': vn, 'state': ['raise', 'raise', 'ignore', 'call'][(k // 2) % 4]}
     # -- Blackbody.vegamag stars: built in every unit pair, converted, sampled in every wave unit (oracle only)
     for c in star_cases(rng, quick):
         yield c
@@ -479,6 +518,10 @@ def classify(c):
         return f'history/{c["kind"]}/{len(c["calls"])}'
     if op in ('wien', 'stefan_boltzmann'):
         return 'TEST/' + op
+    if op == 'edited':
+        return f'edited/{c["cls"]}/{c["edit"]["kind"]}'
+    if op == 'errstate':
+        return f'errstate/{c["target"]}/{c["state"]}'
     if op == 'band':
         return f'band/{"unitless" if c["vu"] is None else "density"}' + (f'/{c["form"]}' if c.get('form') else '')
     if op == 'big':
@@ -842,6 +885,59 @@ def run_impl(c):
             grid = np.exp(np.linspace(math.log(hc_kt / 80.0), math.log(hc_kt / 0.004), 40001))
             vals = np.asarray(R.planck_exitance(grid, c['temp'], c['wn'], c['vn']), dtype=float)
             return {'total': float(np.sum(0.5 * (vals[1:] + vals[:-1]) * np.diff(grid)))}
+        if op == 'edited':
+            w = np.array(c['waves'], dtype=float)
+            if c['cls'] == 'blackbody':
+                obj = R.Blackbody(w, c['temp'], c['wn'], c['vn'])
+            elif c['cls'] == 'vegamag':
+                obj = R.Blackbody.vegamag(w, c['temp'], c['mag'], c['band'], c['wn'], c['vn'])
+            else:
+                obj = R.Spectrum(w, np.asarray(R.planck_radiance(w, c['temp'], c['wn'], c['vn']), dtype=float), c['wn'], c['vn'])
+            e = c['edit']
+            if e['kind'] == 'value':
+                obj.value = obj.value * np.array(e['factors'], dtype=float)
+            elif e['kind'] == 'scale':
+                obj.value = obj.value * e['factor']
+            elif e['kind'] == 'pad':
+                obj.pad(e['ends'])
+            else:
+                unit = np.max(obj.value)
+                obj.append(R.Spectrum(np.array(e['wave'], dtype=float), np.array(e['value'], dtype=float) * unit, obj.waveunit, obj.valueunit))
+            table_ = snap(obj)
+            plain = R.Spectrum(np.array(table_['wave'], dtype=float), np.array(table_['value'], dtype=float), table_['wu'], table_['vu'])
+            obj.to(*c['args'])
+            plain.to(*c['args'])
+            return {'table': table_, 'after': snap(obj), 'plain': snap(plain), 'type': type(obj).__name__}
+        if op == 'errstate':
+            w = np.array(c['waves'], dtype=float)
+
+            def call():
+                if c['target'] == 'blackbody':
+                    return fl(R.Blackbody(w, c['temp'], c['wn'], c['vn']).value)
+                fn = R.planck_radiance if c['target'] == 'radiance' else R.planck_exitance
+                return fl(fn(w, c['temp'], c['wn'], c['vn']))
+            with np.errstate(all='warn'):
+                ref = call()
+            out = {'ref': ref}
+            before = np.geterr()
+            seen = []
+            handler = np.geterrcall()
+            try:
+                if c['state'] == 'call':
+                    np.seterrcall(lambda kind, flag: seen.append(kind))
+                st = {'raise': dict(over='raise', invalid='raise', divide='raise', under='ignore'),
+                      'ignore': dict(all='ignore'), 'call': dict(over='call', invalid='call', divide='call', under='ignore')}[c['state']]
+                with np.errstate(**st):
+                    inside = np.geterr()
+                    try:
+                        out['values'] = call()
+                    except FloatingPointError:
+                        out['raised'] = 'FloatingPointError'
+                    out['state_kept_inside'] = np.geterr() == inside
+            finally:
+                np.seterrcall(handler)
+            out['state_kept'] = np.geterr() == before
+            return out
         if op == 'vegastar':
             w = np.array(c['waves'], dtype=float)
 
@@ -1250,6 +1346,37 @@ def oracle(c, impl):
             return (f'TEST Stefan-Boltzmann: planck_exitance in ({c["wn"]}, {c["vn"]}) at {c["temp"]} K integrates over wavelength to {impl["total"]!r}; '
                     f'sigma T^4 = {exp!r} {"erg s^-1 cm^-2" if c["vn"] == "flam" else "W m^-2"} with sigma = {SIGMA!r} (CODATA 2018) '
                     f'(relative difference {rel:.3g} > {LAW_TOL})')
+        return None
+    if op == 'edited':
+        if 'err' in impl:
+            return f'{c["cls"]} with an edited table ({c["edit"]["kind"]}) then to{tuple(c["args"])} raised {impl["err"]}'
+        a, p, t = impl['after'], impl['plain'], impl['table']
+        if not same_state(a, p):
+            return (f'a {impl["type"]} built in ({c["wn"]}, {c["vn"]}) whose table was edited in place ({c["edit"]}) holds wave {t["wave"]}, '
+                    f'value {t["value"]}; after to{tuple(c["args"])} it holds value {a["value"]} in {(a["wu"], a["vu"])}, but a plain Spectrum '
+                    f'with that same table converts to {p["value"]} in {(p["wu"], p["vu"])}: to() must only rescale the table it finds')
+        if all(wcanon(x) for x in c['args']) and not close(a['integral'], t['integral'], 1e-11):
+            return f'a {impl["type"]} with an edited table: to{tuple(c["args"])} changed its integral {t["integral"]!r} -> {a["integral"]!r}'
+        if (a['wu'], a['vu']) == (t['wu'], t['vu']) and not (lclose(a['wave'], t['wave']) and lclose(a['value'], t['value'])):
+            return f'a {impl["type"]} with an edited table: the closed chain {c["args"]} does not restore it: {t["value"]} -> {a["value"]}'
+        return None
+    if op == 'errstate':
+        if 'err' in impl:
+            return f'{c["target"]} under the default error state raised {impl["err"]}'
+        what = (f'planck_{c["target"]}' if c['target'] != 'blackbody' else 'Blackbody(...).value') + \
+            f' at {c["waves"]} {c["wn"]}, {c["temp"]} K, ({c["wn"]}, {c["vn"]}) under np.errstate({c["state"]})'
+        if not impl['state_kept'] or not impl.get('state_kept_inside', True):
+            return what + ': the numpy error state was changed by the library'
+        m = float(METRES[wcanon(c['wn'])])
+        xs = [H * Cc / (w * m * Kb * c['temp']) for w in c['waves']]
+        overflow = any(x > 709.0 for x in xs)
+        if 'raised' in impl:
+            if c['state'] == 'raise' and overflow:
+                return None             # the caller asked numpy to raise on overflow and exp() does overflow here
+            return what + f': raised {impl["raised"]} although no sample overflows (hc/(lambda k T) = {[round(x, 3) for x in xs]})'
+        if not lclose(impl['values'], impl['ref']):
+            return (what + f' returns {impl["values"]}; under the default error state the same call returns {impl["ref"]} '
+                    f'(hc/(lambda k T) = {[round(x, 3) for x in xs]}): the result must not depend on the caller\'s error state')
         return None
     if op == 'vegastar':
         if 'err' in impl:
